@@ -285,8 +285,17 @@ def gen_history(rng, nmax=6, with_regen=False, ninv=None, with_pools=False):
                         for bb in info["builds"]:
                             if bb.get("pool") == pl[0]:
                                 bb["tag"] = "t%d" % rng.randint(100, 999)
-                    elif rng.random() < 0.6:
+                    elif rng.random() < 0.5:
                         b["tag"] = "t%d" % rng.randint(100, 999)
+                    elif rng.random() < 0.5:
+                        # the step stops (or starts) reporting dependencies: its command no longer names a dependency source
+                        had = [o for o in b["opts"] if o.startswith("depsfrom=")]
+                        if had:
+                            b["opts"] = [o for o in b["opts"] if not o.startswith("depsfrom=")]
+                        else:
+                            srcs = [e for e in b["ex"] if e in info["sources"]]
+                            if srcs:
+                                b["opts"] = b["opts"] + ["depsfrom=%s" % srcs[0]]
                     elif b["oo"]:
                         b["oo"] = []
                     text = manifest_text(info)
